@@ -17,6 +17,7 @@ type c08Case struct {
 	Buf     int   `json:"bufsize"`
 	Levels  int   `json:"levels"`
 	FanIn   bool  `json:"fan_in"`
+	PreOut  []int `json:"pre_out,omitempty"` // items whose P0 output exists before the run (their tasks are skipped)
 }
 
 func (c c08Case) desc() (*Desc, map[string]string) {
@@ -27,6 +28,9 @@ func (c c08Case) desc() (*Desc, map[string]string) {
 		p := fmt.Sprintf("i%02d.txt", i)
 		paths = append(paths, p)
 		pre[p] = p + "\n"
+	}
+	for _, i := range c.PreOut {
+		pre[fmt.Sprintf("i%02d.txt.P0", i)] = fmt.Sprintf("i%02d.txt\n", i)
 	}
 	d.Nodes = append(d.Nodes, Node{Name: "src", Kind: "filesource", Paths: paths})
 	// the command sleeps according to its input: item i sleeps Sleeps[i] ms
@@ -140,17 +144,22 @@ func runC08(ctx *Ctx, c c08Case) {
 }
 
 func checkC08(ctx *Ctx) {
-	ctx.Res.Rule = "chains of 1-3 processes over 2-8 items whose per-item command durations are random (later items usually finish long before earlier ones), maxConcurrentTasks 1-8, SCIPIPE_BUFSIZE 1-3 or 128, optional fan-in of a second upstream into the last port; recorder components after every process; non-trivial = some later item is faster than an earlier one and more than one slot; distinct by case. Checks: recorded order equals arrival order on every out-port, per-sender order through fan-in, counts, and per process goroutine the hook trace's dequeue sequence is a prefix of its accept sequence."
+	ctx.Res.Rule = "chains of 1-3 processes over 2-8 items whose per-item command durations are random (later items usually finish long before earlier ones; in a third of the cases the outputs of some items exist before the run, so that their tasks are skipped), maxConcurrentTasks 1-8, SCIPIPE_BUFSIZE 1-3 or 128, optional fan-in of a second upstream into the last port; recorder components after every process; non-trivial = some later item is faster than an earlier one and more than one slot; distinct by case. Checks: recorded order equals arrival order on every out-port, per-sender order through fan-in, counts, and per process goroutine the hook trace's dequeue sequence is a prefix of its accept sequence."
 	r := NewRng(ctx.Seed)
 	n := 12
 	if ctx.Thorough() {
 		n = 120
 	}
-	cases := []c08Case{{N: 4, Sleeps: []int{120, 60, 20, 1}, Max: 4, Buf: 128, Levels: 2}, {N: 5, Sleeps: []int{80, 5, 60, 1, 30}, Max: 8, Buf: 1, Levels: 1, FanIn: true}}
+	cases := []c08Case{{N: 4, Sleeps: []int{120, 60, 20, 1}, Max: 4, Buf: 128, Levels: 2}, {N: 5, Sleeps: []int{80, 5, 60, 1, 30}, Max: 8, Buf: 1, Levels: 1, FanIn: true},
+		// partial re-run: the outputs of some later items exist already, earlier items still have to run
+		{N: 6, Sleeps: []int{90, 60, 40, 1, 20, 1}, Max: 6, Buf: 128, Levels: 2, PreOut: []int{3, 5}}, {N: 4, Sleeps: []int{70, 1, 50, 1}, Max: 2, Buf: 1, Levels: 1, PreOut: []int{1, 3}}}
 	for i := 0; i < n; i++ {
 		c := c08Case{N: 2 + r.Intn(7), Max: 1 + r.Intn(8), Buf: []int{1, 2, 3, 128}[r.Intn(4)], Levels: 1 + r.Intn(3), FanIn: r.Intn(3) == 0}
 		for k := 0; k < c.N; k++ {
 			c.Sleeps = append(c.Sleeps, 1+r.Intn(90))
+			if i%3 == 2 && r.Intn(3) == 0 {
+				c.PreOut = append(c.PreOut, k)
+			}
 		}
 		cases = append(cases, c)
 	}
